@@ -43,8 +43,8 @@ SmallInner == {[c |-> "list", xs |-> <<>>], [c |-> "list", xs |-> <<Atom("i1")>>
 L2 == {[c |-> k, xs |-> xs] : k \in (DataKinds \cap {"list", "tuple", "gen"}), xs \in SeqsUpTo(SmallInner, Width)}
 D2 == {[c |-> "dict", ks |-> ks, vs |-> vs] : ks \in {<<>>, <<Atom("s_a")>>, <<Atom("s_a"), Atom("i1")>>, <<Atom("s_int"), Atom("s_a")>>},
                                              vs \in SeqsUpTo(SmallInner, Width)}
-DataFor(T) == IF T \in FlatTypes THEN TopAtoms \cup WrongShapes
-              ELSE IF T \in Cont1Types THEN L1 \cup {d \in D1 : Len(d.ks) = Len(d.vs)} \cup TopAtoms
+DataFor(T) == IF T \in FlatTypes \cup UserFlat THEN TopAtoms \cup WrongShapes
+              ELSE IF T \in Cont1Types \cup UserCont THEN L1 \cup {d \in D1 : Len(d.ks) = Len(d.vs)} \cup TopAtoms
               ELSE L2 \cup {d \in D2 : Len(d.ks) = Len(d.vs)} \cup SmallInner
 
 (* ------------------------------ the machine ---------------------------------------- *)
@@ -55,7 +55,7 @@ NoD == Atom("none")
 
 Init == st = "root" /\ T = NoT /\ d = NoD
 PickType == /\ st = "root"
-            /\ \E t \in AllTypes : T' = t
+            /\ \E t \in AllTypes \cup UserTypes : T' = t
             /\ st' = "type"
             /\ d' = d
 PickDatum == /\ st = "type"
@@ -70,6 +70,9 @@ RulesTotal        == IsCase => Total(T, d, TRUE) /\ Total(T, d, FALSE)
 StrictNarrows     == IsCase => StrictSubLax(T, d)                                   \* C07 on the documented rules
 StrictOrigins     == IsCase => StrictOriginsOnly(T, d) /\ StrictNoStrNoMapping(T, d) \* C07, second sentence
 ErrsOnlyWhenRejected == IsCase => \A s \in BOOLEAN : Acc(T, d, s) # {} => Errs(T, d, s) = {}
+\* an exception of user code is never turned into acceptance, and it does not depend on the coercion mode of the builtin cases
+\* in front of it more than those cases do
+UnexpConsistent == IsCase => (Unexp(T, d, TRUE) => Acc(T, d, TRUE) = {}) /\ (Unexp(T, d, FALSE) => Acc(T, d, FALSE) = {})
 
 CaseRecord == [T |-> T, d |-> d, S |-> Outcome(T, d, TRUE), L |-> Outcome(T, d, FALSE)]
 EmitCase == IsCase /\ EmitCases => PrintT(ToJson(CaseRecord))
